@@ -80,6 +80,61 @@ def _work(args):
     return idx, r, total, backend, reason, extra
 
 
+def _child(conn, job):
+    try:
+        conn.send(_work(job))
+    except Exception as e:  # noqa
+        conn.send((job[0], "error", 0.0, "none", repr(e), None))
+    finally:
+        conn.close()
+
+
+def _run_killable(jobs, workers):
+    """One process per obligation, at most `workers` at a time. z3 does not always honour its own timeout (sequence and
+    nonlinear tactics): a process that overruns its wall budget is killed and the obligation is `unknown` (wall cap)."""
+    import multiprocessing as mp
+    ctx = mp.get_context("fork")
+    pending = list(jobs)
+    running = {}     # idx -> (process, connection, deadline, t0)
+    results = []
+    while pending or running:
+        while pending and len(running) < workers:
+            job = pending.pop(0)
+            timeout_ms, cvc5_timeout = job[3], job[5]
+            budget = 5 + 10 + cvc5_timeout + timeout_ms / 1000.0
+            budget = budget * 1.25 + 20
+            a, b = ctx.Pipe(duplex=False)
+            pr = ctx.Process(target=_child, args=(b, job), daemon=True)
+            pr.start()
+            b.close()
+            running[job[0]] = (pr, a, time.time() + budget, time.time())
+        done = []
+        for idx, (pr, conn, deadline, t0) in running.items():
+            if conn.poll(0):
+                try:
+                    results.append(conn.recv())
+                except EOFError:
+                    results.append((idx, "unknown", time.time() - t0, "none", "worker died", None))
+                done.append(idx)
+            elif not pr.is_alive():
+                results.append((idx, "unknown", time.time() - t0, "none", "worker died", None))
+                done.append(idx)
+            elif time.time() > deadline:
+                pr.kill()
+                results.append((idx, "unknown", time.time() - t0, "z3+cvc5", "timeout (wall cap: the solver did not stop by itself)", None))
+                done.append(idx)
+        for idx in done:
+            pr, conn, _d, _t = running.pop(idx)
+            try:
+                conn.close()
+            except Exception:  # noqa
+                pass
+            pr.join(timeout=1)
+        if not done:
+            time.sleep(0.02)
+    return results
+
+
 def discharge(obligations, tier="quick", workers=None, progress=None):
     """Fill in .result/.backend/.time for obligations that have no result yet."""
     todo = [(i, ob) for i, ob in enumerate(obligations) if ob.result is None]
@@ -104,14 +159,7 @@ def discharge(obligations, tier="quick", workers=None, progress=None):
     disagreements = []
     if not jobs:
         return disagreements
-    if len(jobs) <= 2:
-        results = [_work(j) for j in jobs]
-    else:
-        results = []
-        with ProcessPoolExecutor(max_workers=workers) as ex:
-            futs = [ex.submit(_work, j) for j in jobs]
-            for f in as_completed(futs):
-                results.append(f.result())
+    results = _run_killable(jobs, workers)
     for idx, r, t, backend, reason, extra in results:
         ob = obligations[idx]
         ob.time = t
